@@ -1,9 +1,9 @@
 (** Property C11 - virtual nodes and zero-order edges are inert.
-    Only statements closed by [exact]; proofs in Resolve/VirtualProofs.v. *)
+    Only statements closed by [exact]; proofs in Resolve/VirtualProofs.v and Resolve/VirtualStep.v. *)
 From Coq Require Import String.
 From Coq Require Import List Ascii ZArith Bool Lia.
 From CGV Require Import Base.PyBase Base.PyVal Base.NxGraph Resolve.Bonding Resolve.GraphOps Resolve.Pipeline
-     Resolve.StepCheck Resolve.MapDefs Resolve.Witness Resolve.VirtualProofs Resolve.MapProofs Resolve.CopyProofs Resolve.PipelineFull Resolve.FragidProofs Resolve.C11Check.
+     Resolve.StepCheck Resolve.MapDefs Resolve.Witness Resolve.VirtualProofs Resolve.MapProofs Resolve.CopyProofs Resolve.PipelineFull Resolve.FragidProofs Resolve.VirtualStep Resolve.C11Check.
 From CGV Require Hydro.Hydrogens.
 Import ListNotations.
 Open Scope Z_scope.
@@ -98,6 +98,56 @@ Proof.
   destruct (str_eqb name (S "B")); [inversion H; subst; cbn in Hn; destruct Hn as [<-|[]]; repeat constructor; cbn; intuition discriminate|discriminate].
 Qed.
 
+(** ---- the whole step, with and without the virtual node (Resolve/VirtualStep.v) *)
+(** networkx remove_node on the edge list: exactly the edges touching the node disappear, order kept *)
+Theorem C11_edges_after_remove_node : forall g kv,
+  edges_data (remove_node g kv) = filter (fun e => negb (touches kv e)) (edges_data g).
+Proof. exact edges_data_remove. Qed.
+(** [vnode fd kv g]: node kv names no fragment of fd and every edge at kv carries the integer order 0 (both adjacency views).
+    The instantiation loop and the bonding stage cannot tell g from g without kv *)
+Theorem C11_disconnected_remove : forall fd kv g, vnode fd kv g ->
+  resolve_disconnected fd (remove_node g kv) = resolve_disconnected fd g.
+Proof. exact disconnected_remove. Qed.
+Theorem C11_bonding_remove : forall legacy aa fd kv g mol fgs, NoDup (node_keys g) -> vnode fd kv g ->
+  bonding_step legacy aa (remove_node g kv) mol fgs = bonding_step legacy aa g mol fgs.
+Proof. exact bonding_remove. Qed.
+(** the end-to-end step (all stages, any aromaticity transcript) of a level-0 coarse graph containing the virtual node kv
+    returns only if the step of the graph without kv returns, and then with the same fine graph (also before hydrogen
+    completion and before sorting), the same atoms for every other coarse node, and no atom for kv *)
+Theorem C11_step_remove_virtual : forall legacy aa fd prev car fo' kv, wf_dict fd -> wf_attrs fd -> NoDup (node_keys prev) ->
+  get_node_attributes prev (S "atomname") = [] -> vnode fd kv prev ->
+  resolve_step_full legacy aa fd prev car = Ok fo' ->
+  exists fo, resolve_step_full legacy aa fd (remove_node prev kv) car = Ok fo /\
+    fo_mol fo = fo_mol fo' /\ fo_m2 fo = fo_m2 fo' /\ fo_m5 fo = fo_m5 fo' /\
+    fg_keys (fo_fgs fo) = filter (notkv kv) (fg_keys (fo_fgs fo')) /\
+    (forall g, In (kv, g) (fo_fgs fo') -> node_keys g = []).
+Proof. exact step_remove_virtual. Qed.
+(** non-vacuity: {[#V].[#A][#B]} with V = node 0 satisfies every hypothesis (the step returns: C11_step_nonvacuous) *)
+Example C11_step_remove_virtual_nonvacuous :
+  wf_dict fd_AB /\ NoDup (node_keys base_VAB) /\ get_node_attributes base_VAB (S "atomname") = [] /\ vnode fd_AB 0 base_VAB /\
+  graph_eqb (remove_node base_VAB 0) [cnode 1 "A" [(2, 1)]; cnode 2 "B" [(1, 1)]] = true.
+Proof.
+  split; [|split; [|split; [|split]]].
+  - intros name g H. cbn [fd_get fd_AB] in H.
+    destruct (str_eqb name (S "A")).
+    { inversion H; subst; clear H. split; [vm_compute; repeat constructor; cbn; intuition discriminate|].
+      intros u v d Hin. vm_compute in Hin. destruct Hin as [Hin|[]]. inversion Hin; subst. vm_compute. tauto. }
+    destruct (str_eqb name (S "B")); [|discriminate].
+    inversion H; subst; clear H. split; [vm_compute; repeat constructor; cbn; intuition discriminate|].
+    intros u v d Hin. vm_compute in Hin. destruct Hin.
+  - vm_compute. repeat constructor; cbn; intuition discriminate.
+  - vm_compute. reflexivity.
+  - split.
+    + intros n [<-|[<-|[<-|[]]]] Hk; try discriminate Hk. split.
+      * exists (VStr (S "V")). split; vm_compute; reflexivity.
+      * repeat constructor.
+    + intros n d [<-|[<-|[<-|[]]]] Hin; vm_compute in Hin.
+      * destruct Hin as [Hin|[]]. discriminate Hin.
+      * destruct Hin as [Hin|[Hin|[]]]; [|discriminate Hin]. inversion Hin; subst. reflexivity.
+      * destruct Hin as [Hin|[]]. discriminate Hin.
+  - vm_compute. reflexivity.
+Qed.
+
 (** ---- order-0 edges make no bond (corollaries of the proved bond fold of C03) *)
 Theorem C11_no_bond_for_order0 : forall legacy arom a b s acc, edge_loop legacy arom (Z.to_nat 0) a b s acc = Ok (s, acc).
 Proof. exact no_bond_for_order0. Qed.
@@ -118,3 +168,7 @@ Print Assumptions C11_map.
 Print Assumptions C11_step_records_real.
 Print Assumptions C11_step_virtual_empty.
 Print Assumptions C11_transcript_keeps_fragid.
+Print Assumptions C11_edges_after_remove_node.
+Print Assumptions C11_disconnected_remove.
+Print Assumptions C11_bonding_remove.
+Print Assumptions C11_step_remove_virtual.
